@@ -273,12 +273,28 @@ func (server *SugarDB) setExpiry(ctx context.Context, key string, expireAt time.
 		ExpireAt: expireAt,
 	}
 
-	// If the slice of keys associated with expiry time does not contain the current key, add the key.
-	server.keysWithExpiry.rwMutex.Lock()
-	if !slices.Contains(server.keysWithExpiry.keys[database], key) {
-		server.keysWithExpiry.keys[database] = append(server.keysWithExpiry.keys[database], key)
+	if expireAt == (time.Time{}) {
+		// The deadline is removed: the key is no longer volatile, so it leaves the keys associated
+		// with expiry and the volatile eviction candidates.
+		server.keysWithExpiry.rwMutex.Lock()
+		server.keysWithExpiry.keys[database] = slices.DeleteFunc(server.keysWithExpiry.keys[database], func(k string) bool {
+			return k == key
+		})
+		server.keysWithExpiry.rwMutex.Unlock()
+		switch server.config.EvictionPolicy {
+		case constants.VolatileLFU:
+			server.lfuCache.cache[database].Delete(key)
+		case constants.VolatileLRU:
+			server.lruCache.cache[database].Delete(key)
+		}
+	} else {
+		// If the slice of keys associated with expiry time does not contain the current key, add the key.
+		server.keysWithExpiry.rwMutex.Lock()
+		if !slices.Contains(server.keysWithExpiry.keys[database], key) {
+			server.keysWithExpiry.keys[database] = append(server.keysWithExpiry.keys[database], key)
+		}
+		server.keysWithExpiry.rwMutex.Unlock()
 	}
-	server.keysWithExpiry.rwMutex.Unlock()
 
 	// If touch is true, update the keys status in the cache.
 	if touch {
